@@ -271,8 +271,14 @@ Fence(t, ins, me) ==
   LET sc == ins.ord = "sc"
       c1 == IF IsAcq(ins.ord) THEN me.acq ELSE me.cur
       c2 == IF sc THEN JoinV(c1, scv) ELSE c1
+      \* what later relaxed stores publish: everything the thread knows after the fence (the operational RC11 machine,
+      \* Lower) - or, weakest reading (Upper), what it knew before it learned from SC-earlier fences of other threads.  Over
+      \* all interleavings both give the RC11 outcomes (oracle self-check against RC11Ax); they differ in which outcome a
+      \* GIVEN order of two SC fences can produce, and loom, like any implementation, is free there: the order in which
+      \* it executed two fences need not be their order in S
+      r2 == IF sc /\ ~Strong THEN c1 ELSE c2
   IN /\ SetMe(t, [cur |-> c2, acq |-> JoinV(me.acq, c2),
-                  rel |-> IF IsRel(ins.ord) THEN c2 ELSE me.rel])
+                  rel |-> IF IsRel(ins.ord) THEN r2 ELSE me.rel])
      /\ scv' = IF sc THEN c2 ELSE scv
      /\ NoRet /\ Adv(t) /\ NoRace /\ UnchMem /\ UnchRace
      /\ UNCHANGED <<ob, sub, st>>
